@@ -15,6 +15,9 @@ type Ctx struct {
 	Rng  *vgen.Rand
 	Now  int64 // seconds, sampled once at start (timestamps are generated relative to it)
 	cfgs []string
+	// X: cases are wrapped in Router.xcase and every packet case is followed by a mac-layout
+	// case (set by MainX).
+	X bool
 	// Tagger computes known-finding tags from the input of a case (may be nil).
 	Tagger func(c *Config, sc *Scenario, in *Rec) []string
 	// NonTrivial decides whether a case reached the decision the property is about.
@@ -37,8 +40,71 @@ func (x *Ctx) AddConfig(c *Config) (string, *Router) {
 }
 
 // Emit serializes the scenario, runs it through the real router (unless -only
-// deselects the case) and registers the case.
+// deselects the case) and registers the case; in X mode a mac-layout case for the current hop
+// field of the scenario follows (it compares path.MACInput / path.FullMAC, the code under test,
+// with the documented layout and the independent reference MAC).
 func (x *Ctx) Emit(stream string, cfgName string, rt *Router, sc *Scenario) {
+	x.emitPkt(stream, cfgName, rt, sc)
+	if x.X {
+		x.emitLayout(rt.Cfg, sc)
+	}
+}
+
+func (x *Ctx) wrap(term string) string {
+	if x.X {
+		return "(Router.XCase " + term + ")"
+	}
+	return term
+}
+
+func w64(b []byte) uint64 {
+	var v uint64
+	for _, c := range b {
+		v = v<<8 | uint64(c)
+	}
+	return v
+}
+
+// emitLayout registers the mac-layout case of the scenario's current hop field.
+func (x *Ctx) emitLayout(c *Config, sc *Scenario) {
+	run := x.Run
+	if !run.Want() {
+		run.Skip()
+		return
+	}
+	d := sc.Desc
+	hf := int(d.CurrHF)
+	if hf >= len(d.Hops) {
+		hf = len(d.Hops) - 1
+	}
+	ci := int(d.InfIndexForHF(uint8(hf)))
+	if ci >= len(d.Infos) {
+		ci = len(d.Infos) - 1
+	}
+	h, inf := d.Hops[hf], d.Infos[ci]
+	blk := ImplMACInput(inf.SegID, inf.Timestamp, h.ExpTime, h.ConsIngress, h.ConsEgress)
+	ref := RefFullMAC(c.Key, inf.SegID, inf.Timestamp, h.ExpTime, h.ConsIngress, h.ConsEgress)
+	impl := ImplFullMAC(c.Key, inf.SegID, inf.Timestamp, h.ExpTime, h.ConsIngress, h.ConsEgress)
+	term := vgen.App("Router.XMacLayout", vgen.N(uint64(inf.SegID)), vgen.N(uint64(inf.Timestamp)),
+		vgen.N(uint64(h.ExpTime)), vgen.N(uint64(h.ConsIngress)), vgen.N(uint64(h.ConsEgress)),
+		vgen.N(w64(blk[:8])), vgen.N(w64(blk[8:])), vgen.N(w64(ref[:8])), vgen.N(w64(ref[8:])),
+		vgen.N(w64(impl[:8])), vgen.N(w64(impl[8:])))
+	same := blk == RefMACInput(inf.SegID, inf.Timestamp, h.ExpTime, h.ConsIngress, h.ConsEgress) && ref == impl
+	if !same {
+		run.Tally("mac-layout:DIFFERS")
+	}
+	if h.ConsIngress>>8 != h.ConsEgress>>8 {
+		run.Tally("mac-layout:interface ids with different high bytes")
+	}
+	run.Add("mac-layout", term, fmt.Sprintf("%x|%d|%d|%d|%d|%d", c.Key, inf.SegID, inf.Timestamp, h.ExpTime,
+		h.ConsIngress, h.ConsEgress), false,
+		map[string]any{"segid": inf.SegID, "timestamp": inf.Timestamp, "exptime": h.ExpTime,
+			"cons_ingress": h.ConsIngress, "cons_egress": h.ConsEgress,
+			"path.MACInput": fmt.Sprintf("%x", blk), "reference_mac": fmt.Sprintf("%x", ref),
+			"path.FullMAC": fmt.Sprintf("%x", impl), "same": same})
+}
+
+func (x *Ctx) emitPkt(stream string, cfgName string, rt *Router, sc *Scenario) {
 	run := x.Run
 	if !run.Want() {
 		run.Skip()
@@ -89,7 +155,7 @@ func (x *Ctx) Emit(stream string, cfgName string, rt *Router, sc *Scenario) {
 		desc["panic"] = o.Res.PanicMsg
 		run.Tally("PANIC:" + firstWords(o.Res.PanicMsg))
 	}
-	id := run.Add(stream, CaseTerm(cfgName, rt.Cfg, sc.Ing, sc.Desc.L4, &o), Key(cfgName, sc.Ing, raw), nt, desc, tags...)
+	id := run.Add(stream, x.wrap(CaseTerm(cfgName, rt.Cfg, sc.Ing, sc.Desc.L4, &o)), Key(cfgName, sc.Ing, raw), nt, desc, tags...)
 	if x.After != nil {
 		x.After(id, sc, &o, desc)
 	}
@@ -109,21 +175,35 @@ func (x *Ctx) ConstCases() {
 			x.Run.Skip()
 			continue
 		}
-		x.Run.Add("const", vgen.App("Router.CConst", vgen.N(uint64(k)), vgen.N(v)),
+		x.Run.Add("const", x.wrap(vgen.App("Router.CConst", vgen.N(uint64(k)), vgen.N(v))),
 			fmt.Sprintf("const%d", k), false, map[string]uint64{"const": uint64(k), "value": v})
 	}
 }
 
 // Main is the runner pattern shared by the router properties.
-func Main(prop, checkFn, rule string, body func(x *Ctx)) {
+func Main(prop, checkFn, rule string, body func(x *Ctx)) { mainWith(false, prop, checkFn, rule, body) }
+
+// MainX is Main with cases of type Router.xcase: every packet case is followed by a
+// mac-layout case (checkFn still is a function on Router.case).
+func MainX(prop, checkFn, rule string, body func(x *Ctx)) { mainWith(true, prop, checkFn, rule, body) }
+
+func mainWith(xmode bool, prop, checkFn, rule string, body func(x *Ctx)) {
 	run := vgen.Flags(prop)
 	run.Imports = []string{"Model.Router"}
 	run.CheckFn = checkFn
 	run.DiagFn = "Router.diag"
 	run.CaseType = "Router.case"
+	if xmode {
+		run.CheckFn = "Router.xcheck " + checkFn
+		run.DiagFn = "Router.xdiag"
+		run.CaseType = "Router.xcase"
+		rule += "; every packet case is followed by a mac-layout case: path.MACInput / path.FullMAC on the hop " +
+			"field's (SegID, timestamp, ExpTime, ConsIngress, ConsEgress) against the documented input block and an " +
+			"independent AES-CMAC (the MAC tables of the packet cases and the generated MACs come from that reference)"
+	}
 	run.Rule = rule
 	run.ShardSize = 250
-	x := &Ctx{Run: run, Rng: vgen.NewRand(run.Seed), Now: time.Now().Unix()}
+	x := &Ctx{Run: run, Rng: vgen.NewRand(run.Seed), Now: time.Now().Unix(), X: xmode}
 	x.ConstCases()
 	body(x)
 	run.Prelude = strings.Join(x.cfgs, "\n")
